@@ -69,6 +69,22 @@ func selfTest(verif, repo, prop string) any {
 			jobs = append(jobs, job{e: mutantEntry{ID: id, Property: "all", Rule: "-"}, neg: true})
 		}
 	}
+	// independent experiments (DESIGN §8.3–§8.5): the seeded changes written against this
+	// property must make it fail; the behaviour-preserving refactorings must leave every
+	// property silent (spread over the 20 properties so that a full sweep runs each once)
+	if seeds, _ := filepath.Glob(filepath.Join(verif, "seeded", prop+"-*", "patch.diff")); len(seeds) > 0 {
+		for _, sp := range seeds {
+			jobs = append(jobs, job{e: mutantEntry{ID: "seed:" + filepath.Base(filepath.Dir(sp)), Property: prop, Rule: "*", File: sp}})
+		}
+	}
+	if refs, _ := filepath.Glob(filepath.Join(verif, "refactors", "R*", "patch.diff")); len(refs) > 0 {
+		sort.Strings(refs)
+		for i, rp := range refs {
+			if fmt.Sprintf("C%02d", i%20+1) == prop {
+				jobs = append(jobs, job{e: mutantEntry{ID: "refactor:" + filepath.Base(filepath.Dir(rp)), Property: "all", Rule: "-", File: rp}, neg: true})
+			}
+		}
+	}
 	base := filepath.Join(os.TempDir(), fmt.Sprintf("mocverif-selftest-%d", os.Getpid()))
 	defer os.RemoveAll(base)
 	results := make([]mutantResult, len(jobs))
@@ -108,14 +124,15 @@ func selfTest(verif, repo, prop string) any {
 		"stale":        stale,
 		"false_alarms": falseAlarms,
 		"results":      results,
-		"note":         "each patch is applied to a scratch copy of the repository's current working tree and the rules are re-run on the copy; 'detected' = the named rule reported the seeded construct; negative controls (behaviour-preserving rewrites) must stay silent",
+		"note":         "own mutants (mutants/), independent seeded changes (seeded/<property>-*) and independent behaviour-preserving refactorings (refactors/, as negative controls); each patch is applied to a scratch copy of the repository's current working tree and the rules are re-run on the copy; 'detected' = the named rule reported the seeded construct; negative controls (behaviour-preserving rewrites) must stay silent",
 	}
 }
 
 func runMutant(self, verif, repo, base string, e mutantEntry, neg bool) mutantResult {
 	res := mutantResult{ID: e.ID, Rule: e.Rule, SurvivesTests: e.Survives}
-	dir := filepath.Join(base, e.ID)
-	ev := filepath.Join(base, "ev-"+e.ID)
+	safe := strings.ReplaceAll(e.ID, ":", "_")
+	dir := filepath.Join(base, safe)
+	ev := filepath.Join(base, "ev-"+safe)
 	defer os.RemoveAll(dir)
 	defer os.RemoveAll(ev)
 	if err := os.MkdirAll(dir, 0o755); err != nil {
@@ -127,6 +144,9 @@ func runMutant(self, verif, repo, base string, e mutantEntry, neg bool) mutantRe
 		return res
 	}
 	patch := filepath.Join(verif, "mutants", "patches", e.ID+".patch")
+	if strings.HasPrefix(e.ID, "seed:") || strings.HasPrefix(e.ID, "refactor:") {
+		patch = e.File
+	}
 	if out, err := exec.Command("patch", "-p1", "-s", "-d", dir, "-i", patch).CombinedOutput(); err != nil {
 		res.Status = "stale (patch does not apply: " + strings.TrimSpace(string(out)) + ")"
 		return res
@@ -156,7 +176,7 @@ func runMutant(self, verif, repo, base string, e mutantEntry, neg bool) mutantRe
 		res.Status = "silent"
 	case neg:
 		res.Status = "false-alarm"
-	case fired[e.Rule]:
+	case fired[e.Rule] || (e.Rule == "*" && violated):
 		res.Status = "detected"
 	default:
 		res.Status = "missed"
